@@ -5,6 +5,7 @@ import (
 	"fmt"
 	"os"
 	"sort"
+	"sync/atomic"
 	"testing"
 
 	"github.com/restic/restic/internal/backend"
@@ -275,9 +276,16 @@ func TestVerifC11BackupCrashPrefixes(t *testing.T) {
 			ks = vRange(len(log))
 		}
 		for _, k := range ks {
-			mode := rapid.SampledFrom([]string{"failfrom", "failfrom+loads", "failonce", "failafterapply", "cancel", "window"}).Draw(t, "faultMode")
+			mode := rapid.SampledFrom([]string{"failfrom", "failfrom+loads", "failonce", "failafterapply", "cancel", "window", "failone", "failone", "failone"}).Draw(t, "faultMode")
 			fs := e.store.StateAt(0)
 			fe := e.OnStore(fs)
+			if mode == "failone" {
+				// exactly one logical operation fails for good (an outage of one request that outlasts
+				// the retry budget), everything after it works again: injected ABOVE the retry layer
+				fe.gopts.BackendTestHook = func(be backend.Backend) (backend.Backend, error) {
+					return &vFailOneC11{Backend: be, n: int64(k)}, nil
+				}
+			}
 			f := vbe.NoFaults()
 			ctx, cancel := context.WithCancel(context.Background())
 			switch mode {
@@ -319,6 +327,28 @@ func TestVerifC11BackupCrashPrefixes(t *testing.T) {
 			}
 		}
 	})
+}
+
+// vFailOneC11 fails the n-th logical mutating operation (counted above the retry layer) permanently.
+type vFailOneC11 struct {
+	backend.Backend
+	n, cnt int64
+}
+
+func (b *vFailOneC11) hit() bool { return atomic.AddInt64(&b.cnt, 1)-1 == b.n }
+
+func (b *vFailOneC11) Save(ctx context.Context, h backend.Handle, rd backend.RewindReader) error {
+	if b.hit() {
+		return fmt.Errorf("injected: request failed beyond the retry budget (save %v)", h)
+	}
+	return b.Backend.Save(ctx, h, rd)
+}
+
+func (b *vFailOneC11) Remove(ctx context.Context, h backend.Handle) error {
+	if b.hit() {
+		return fmt.Errorf("injected: request failed beyond the retry budget (remove %v)", h)
+	}
+	return b.Backend.Remove(ctx, h)
 }
 
 func vBucketC11(n int) string {
